@@ -130,8 +130,8 @@ func Sparse6Decode(s string) (*SparseGraph, error) {
 	}
 
 	//Check the initial byte and remove it.
-	if s[0] != 58 {
-		return &SparseGraph{}, fmt.Errorf("Incorrect first character. Expected: : Found: %v", s[0])
+	if len(s) == 0 || s[0] != 58 {
+		return &SparseGraph{}, errors.New("Incorrect first character. Expected: :")
 	}
 	s = s[1:]
 
@@ -145,9 +145,15 @@ func Sparse6Decode(s string) (*SparseGraph, error) {
 	var n uint64
 	i := 0
 
+	if len(s) == 0 {
+		return &SparseGraph{}, errors.New("String too short - unable to decode n")
+	}
+
 	if s[0] != 126 {
 		n = uint64(s[0] - 63)
 		i = 1
+	} else if len(s) < 2 {
+		return &SparseGraph{}, errors.New("String too short - unable to decode n")
 	} else if s[1] != 126 {
 		if len(s) < 4 {
 			return &SparseGraph{}, errors.New("String too short - unable to decode n")
@@ -163,42 +169,35 @@ func Sparse6Decode(s string) (*SparseGraph, error) {
 	}
 
 	g := NewSparse(int(n), nil)
+	if n <= 1 {
+		//No edges are possible (and n-1 would wrap for n = 0).
+		return g, nil
+	}
 	v := 0
 	k := 64 - bits.LeadingZeros64(n-1)
-	var bitIndex uint
-	for {
-		b := ((s[i] - 63) >> (5 - bitIndex)) & 1
-		bitIndex++
-		if bitIndex == 6 {
-			bitIndex = 0
-			i++
-			if i >= len(s) {
-				return g, nil
-			}
+
+	//The rest of the string is a stream of (b, x) pairs of 1 + k bits each. An incomplete pair at the end is discarded.
+	numBits := (len(s) - i) * 6
+	pos := 0
+	for pos+1+k <= numBits {
+		b := ((s[i+pos/6] - 63) >> uint(5-pos%6)) & 1
+		pos++
+		x := 0
+		for j := 0; j < k; j++ {
+			x = x<<1 | int(((s[i+pos/6]-63)>>uint(5-pos%6))&1)
+			pos++
 		}
 		if b == 1 {
 			v++
 		}
-		x := 0
-		for j := 0; j < k; j++ {
-			if ((s[i]-63)>>(5-bitIndex))&1 == 1 {
-				x |= 1 << uint(k-j-1)
-			}
-			bitIndex++
-			if bitIndex == 6 {
-				bitIndex = 0
-				i++
-				if i >= len(s) {
-					return g, nil
-				}
-			}
-		}
 		if x > v {
 			v = x
-		} else {
+		} else if v < int(n) {
+			//Pairs which point past the last vertex can only come from padding and are ignored.
 			g.AddEdge(v, x)
 		}
 	}
+	return g, nil
 }
 
 //Sparse6Encode returns an encoding of g. Note that the encoding is not unique but this should align with the format used by showg, geng, nauty etc.
